@@ -567,6 +567,9 @@ func buildEvidence(id, tier string, seed int, spec CheckSpec, results []hres2, i
 		"ssa_load_seconds":              round2(loadS),
 		"engine":                        "gosym: path-replay symbolic executor over go/ssa (x/tools v0.50.0), regenerated from /repo working tree",
 	}
+	if spec.Assumptions == nil {
+		spec.Assumptions = []string{}
+	}
 	level := spec.Level
 	if level == "" {
 		level = "model_checking"
